@@ -726,7 +726,9 @@ func (b *BFT) SafeNode(msg *Message) lib.ErrorI {
 		return nil // SAFETY (SAME PROPOSAL AS LOCKED)
 	}
 	// if the view of the Locked proposal is older than the Leader's message
-	if msg.HighQc.Header.Round > b.HighQC.Header.Round {
+	// NOTE: Round restarts at 0 on a NEW_COMMITTEE (root height) reset while locks are kept, so the root height orders first
+	locked, justification := b.HighQC.Header, msg.HighQc.Header
+	if justification.RootHeight > locked.RootHeight || (justification.RootHeight == locked.RootHeight && justification.Round > locked.Round) {
 		b.log.Infof("Proposal %s satisfied the safe node predicate with LIVENESS", lib.BytesToTruncatedString(b.HighQC.BlockHash))
 		return nil // LIVENESS (HIGHER ROUND v COMMITTEE THAN LOCKED)
 	}
